@@ -5,10 +5,18 @@ RejFile == IOEnv.VERIF_REJ
 VARIABLE row
 Init == row = 0
 Next == row = 0 /\ row' \in 1..Len(Obs)
-Emit == row = 0 \/ (Obs[row].ok =>
-          /\ \A x \in PipViolations(Obs[row].universe, Obs[row].root, Obs[row].graph) :
-               CSVWrite("%1$s", <<ToJson([law |-> x[1], n |-> row, k |-> x[2]])>>, RejFile)
-          /\ \A i \in UndeclaredEdges(Obs[row].universe, Obs[row].graph) :
-               CSVWrite("%1$s", <<ToJson([law |-> "info-undeclared-edge", n |-> row, k |-> i])>>, RejFile))
+\* records replayed from PipResolveMC carry what the algorithm model PipResolve.tla returns (graph-level error, or nodes in
+\* mapping order and the set of edges): the real resolver must return the same.  A difference is information (the verdict on
+\* C08 is always the laws on the REAL graph): it says that PipResolve.tla no longer describes the code.
+HasModel(o) == "model" \in DOMAIN o
+AsSet(s) == {s[i] : i \in 1..Len(s)}
+ModelDiff(o) == IF ~HasModel(o) THEN {}
+                ELSE IF o.model.gerr # (~o.ok) THEN {"info-graph-level-error-differs-from-algorithm-model"}
+                ELSE IF o.ok /\ (o.graph.nodes # o.model.nodes \/ AsSet(o.graph.edges) # AsSet(o.model.edges)) THEN {"info-graph-differs-from-algorithm-model"}
+                ELSE {}
+LawsOK(o) == o.ok => /\ \A x \in PipViolations(o.universe, o.root, o.graph) : CSVWrite("%1$s", <<ToJson([law |-> x[1], n |-> row, k |-> x[2]])>>, RejFile)
+                     /\ \A i \in UndeclaredEdges(o.universe, o.graph) : CSVWrite("%1$s", <<ToJson([law |-> "info-undeclared-edge", n |-> row, k |-> i])>>, RejFile)
+ModelOK(o) == \A l \in ModelDiff(o) : CSVWrite("%1$s", <<ToJson([law |-> l, n |-> row, k |-> 0])>>, RejFile)
+Emit == row = 0 \/ (LawsOK(Obs[row]) /\ ModelOK(Obs[row]))
 ASSUME CSVWrite("%1$s", <<ToJson([law |-> "stats", n |-> Len(Obs), k |-> 0])>>, RejFile)
 =============================================================================
